@@ -117,14 +117,15 @@ type sgChange struct {
 }
 
 type sgRun struct {
-	c      *sgCase
-	res    *vfResult
-	peers  [2]*sgPeerState
-	recs   []*sgRec
-	rnd    *vfRand
-	serial int
-	nw     *vfNetSim
-	lines  []string
+	invalidRemote string // non-empty: a remote description broke the rules of renegotiation (which one)
+	c             *sgCase
+	res           *vfResult
+	peers         [2]*sgPeerState
+	recs          []*sgRec
+	rnd           *vfRand
+	serial        int
+	nw            *vfNetSim
+	lines         []string
 }
 
 func sgErrKind(err error) string {
@@ -486,6 +487,20 @@ func (r *sgRun) exec(i int, op sgOp) {
 			ps.senders = append(ps.senders, s)
 			if len(pc.GetTransceivers()) > before {
 				ps.changes = append(ps.changes, sgChange{rec.Idx, "addtrack-new-transceiver"})
+			} else if cl := pc.CurrentLocalDescription(); cl != nil && pc.SignalingState() == SignalingStateStable {
+				// the track went onto an existing transceiver: if that one is negotiated as not sending
+				// (its section of the current local description says recvonly/inactive) the session has
+				// to be renegotiated before anything can be sent
+				for _, t := range pc.GetTransceivers() {
+					if t.Sender() != s || t.Mid() == "" {
+						continue
+					}
+					for _, sec := range vfParseSDP(cl.SDP).Sections {
+						if m, ok := sec.Mid(); ok && m == t.Mid() && sec.Port != 0 && (vfAttrHas(sec.Attrs, "recvonly") || vfAttrHas(sec.Attrs, "inactive")) {
+							ps.changes = append(ps.changes, sgChange{rec.Idx, "addtrack-on-negotiated-receive-only-transceiver"})
+						}
+					}
+				}
 			}
 		}
 	case "removetrack":
